@@ -41,7 +41,7 @@ Section UnusedKey.
   Qed.
 End UnusedKey.
 
-(* ---- SimplifyUnusedExpr and optional chains (known findings J and K) -------------- *)
+(* ---- SimplifyUnusedExpr and optional chains (findings J and K, repaired by 01a3711 / a3926ba) -------------- *)
 Section Chains.
   Definition s_q : list Z := [113].
   Definition s_y : list Z := [121].
@@ -72,23 +72,39 @@ Section Chains.
     EBin BLogAnd (EBin BLooseNe (EId 1 false false) ENull)
       (EDot (EDot (EDot (EId 1 false false) s_q 0 false false) s_y 1 false false) s_z 0 false false).
 
-  (* J: the input throws TypeError (reading .z of undefined); the simplification
-     a?.q?.y.z short-circuits and completes normally *)
-  Lemma simplify_unused_paren_chain_refuted_w :
-    simplify_unused ub false paren_chain
-      = UExpr (EDot (EDot (EDot (EId 1 false false) s_q 1 false false) s_y 1 false false) s_z 2 false false)
+  (* J (repaired by 01a3711): the input throws TypeError (reading .z of undefined);
+     TryToInsertOptionalChain stops at the link that ends the parenthesized chain, the
+     expression is kept and still throws (before the fix: a?.q?.y.z, which completes normally) *)
+  Lemma simplify_unused_paren_chain_fixed_w :
+    simplify_unused ub false paren_chain = UExpr paren_chain
     /\ eval WJ [] paren_chain = Some ([], Throw (VStr s_TypeError))
-    /\ eval_unused WJ [] (simplify_unused ub false paren_chain) = Some ([], Val VUndef).
+    /\ eval_unused WJ [] (simplify_unused ub false paren_chain) = Some ([], Throw (VStr s_TypeError)).
   Proof. repeat split; vm_compute; reflexivity. Qed.
 
-  (* K: /* @__PURE__ */ n?.(g()) with n null never calls g; its simplification g() does *)
+  (* the chain without parentheses is still shortened: a != null && a.q.y  =>  a?.q.y *)
+  Definition plain_chain : expr :=
+    EBin BLogAnd (EBin BLooseNe (EId 1 false false) ENull)
+      (EDot (EDot (EId 1 false false) s_q 0 false false) s_y 0 false false).
+  Lemma simplify_unused_plain_chain_inserted :
+    simplify_unused ub false plain_chain
+      = UExpr (EDot (EDot (EId 1 false false) s_q 1 false false) s_y 2 false false)
+    /\ eval WJ [] plain_chain = eval_unused WJ [] (simplify_unused ub false plain_chain).
+  Proof. repeat split; vm_compute; reflexivity. Qed.
+
+  (* K (repaired by a3926ba): /* @__PURE__ */ n?.(g()) with n null never calls g; the
+     call is kept because its argument cannot be removed (before the fix: g()) *)
   Definition pure_optional_call : expr :=
     ECall (EId 2 false false) [ECall (EId 1000 false false) [] 0 false] 1 true.
-  Lemma simplify_unused_pure_optional_call_refuted_w :
-    simplify_unused ub true pure_optional_call = UExpr (ECall (EId 1000 false false) [] 0 false)
+  Lemma simplify_unused_pure_optional_call_fixed_w :
+    simplify_unused ub true pure_optional_call = UExpr pure_optional_call
     /\ eval WJ [] pure_optional_call = Some ([], Val VUndef)
-    /\ eval_unused WJ [] (simplify_unused ub true pure_optional_call) = Some ([1000], Val VUndef).
+    /\ eval_unused WJ [] (simplify_unused ub true pure_optional_call) = Some ([], Val VUndef).
   Proof. repeat split; vm_compute; reflexivity. Qed.
+
+  (* with removable arguments the pure optional call is still dropped *)
+  Lemma simplify_unused_pure_optional_call_removable :
+    simplify_unused ub true (ECall (EId 2 false false) [ENum zero_num; EStr []] 1 true) = UNil.
+  Proof. vm_compute. reflexivity. Qed.
 End Chains.
 
 (* ---- ValuesLookTheSame and the typeof-identifier mark (finding P, fixed by 71e396b) ---------- *)
